@@ -18,6 +18,7 @@ import vlib
 import semlib
 import semcheck
 import semfam
+from semlib import L, nm, name
 from vlib import Scratch, Report, log, tier, seed
 
 OPTS = [None, {"builder": True, "numcpu": 4}, {"builder": False, "numcpu": 4, "batch": 1, "parallel": 1}, {"builder": False, "numcpu": 2, "batch": 3, "parallel": 4},
@@ -46,6 +47,19 @@ def run():
     for d in more[:(60 if thorough else 8)]:
         for o in OPTS[1:]:
             semfam.rd_script(script, d, rng, tag="opts", opts=o)
+    # many values under one key, spread over the file, compiled with small racing batches: a lost value shows as a
+    # difference between CDB and RocksDB for the TXT sets
+    for rep_ in range(6 if thorough else 2):
+        lines = [L(".", nm("hot.test"), x=name("a"), xshort=True)]
+        owners = ["t%d.hot.test" % i for i in range(6)]
+        for k in range(60):
+            for o in owners:
+                lines.append(L("'", nm(o), rd=[116, 48 + k // 10, 48 + k % 10]))
+        rng.shuffle(lines)
+        script.file(lines, rng, tag="opts-hot", opts={"builder": False, "numcpu": 16, "batch": rng.choice([1, 2, 3]), "parallel": 4})
+        for o in owners:
+            q, c = semlib.query(nm(o), 16, "10.9.9.9", exact=True, edns=True)      # 60 TXT records: needs the 4096-byte buffer
+            script.q(q, c, tag="opts-hot")
     semfam.world_script(script, rng, 200 if thorough else 16, default_routes=True,
                         opts_fn=lambda g: g.choice(OPTS) if g.random() < 0.3 else None)
     trace, rows, res, info = semcheck.validate(script, "c02")
@@ -99,6 +113,16 @@ def selftest(rows):
 
 
 def replay(path):
+    """re-executes the recorded case on the current tree and lets TLC judge it again: exit 1 if it is still rejected"""
     d = json.load(open(path))
-    print(json.dumps(d, indent=1)[:6000])
+    print(json.dumps({k: v for k, v in d.items() if k != "replay"}, indent=1)[:3000])
+    print("data file:\n" + d["replay"].get("data_file", "")[:4000])
+    rej = semlib.replay_rows(path)
+    if rej is None:
+        return 0
+    mine = [r for r in rej if str(r[2]).startswith(d["property"] + ":") or d["property"] == "C02"]
+    if mine:
+        print("VIOLATION property=%s replay=%s" % (d["property"], path))
+        return 1
+    print("not reproduced on the current tree")
     return 0
